@@ -318,6 +318,10 @@ static void quiescence(void)
 	ns_t td = tf_min_deadline();
 	if (td >= 0 && (d < 0 || td < d))
 		d = td;
+	/* the horizon of an execution: a deadline decades away counts as "never" (the virtual clock
+	 * stays far below the value at which logged seconds are clamped) */
+	if (d > VBASE + SIMK_HORIZON)
+		d = -1;
 	if (d < 0) {
 		if (hooks.env_at_hang && hooks.env_at_hang() > 0) {
 			simk_progress();
@@ -761,7 +765,7 @@ static int do_wait(int prim, int epfd, struct epoll_event *ev, int max,
 		return -1;
 	}
 	tr("\"e\":\"WE\",\"p\":\"%s\",\"to\":[%lld,%lld],\"tfd\":[%lld,%lld],\"now\":[%lld,%lld]}",
-	   primname[prim], TS(rel), TS(tf_effective()), TS(vnow));
+	   primname[prim], TSREL(rel, vnow), TS(tf_effective()), TS(vnow));
 	deadline = rel < 0 ? -1 : vnow + rel;
 
 	__real_pthread_mutex_lock(&M);
